@@ -10,6 +10,9 @@ def escSpec (attr : Bool) (b : UInt8) : Bytes :=
   else if b = 60 then [38, 108, 116, 59]
   else if b = 62 then [38, 103, 116, 59]
   else if b = 34 ∧ attr = true then [38, 113, 117, 111, 116, 59]
+  else if b = 13 then [38, 35, 120, 68, 59]
+  else if b = 9 ∧ attr = true then [38, 35, 120, 57, 59]
+  else if b = 10 ∧ attr = true then [38, 35, 120, 65, 59]
   else [b]
 
 theorem esc_eq_spec_nat (attr : Bool) : ∀ n < 256, esc attr (UInt8.ofNat n) = escSpec attr (UInt8.ofNat n) := by
@@ -37,7 +40,10 @@ theorem escSpec_hi (attr : Bool) (b : UInt8) (h : 128 ≤ b.toNat) : escSpec att
   have h2 : b ≠ 60 := by intro h'; subst h'; simp at h
   have h3 : b ≠ 62 := by intro h'; subst h'; simp at h
   have h4 : b ≠ 34 := by intro h'; subst h'; simp at h
-  simp [escSpec, h1, h2, h3, h4]
+  have h5 : b ≠ 13 := by intro h'; subst h'; simp at h
+  have h6 : b ≠ 9 := by intro h'; subst h'; simp at h
+  have h7 : b ≠ 10 := by intro h'; subst h'; simp at h
+  simp [escSpec, h1, h2, h3, h4, h5, h6, h7]
 
 theorem dumpText_hi (attr : Bool) : ∀ (l : Bytes), (∀ b ∈ l, 128 ≤ b.toNat) → dumpText attr l = l
   | [], _ => by simp [dumpText]
@@ -46,7 +52,12 @@ theorem dumpText_hi (attr : Bool) : ∀ (l : Bytes), (∀ b ∈ l, 128 ≤ b.toN
     rfl
 
 theorem dumpText_length_pos (attr : Bool) (b : UInt8) (l : Bytes) : 0 < (dumpText attr (b :: l)).length := by
-  rw [dumpText_cons]; unfold escSpec; split <;> (try split) <;> (try split) <;> (try split) <;> simp
+  rw [dumpText_cons]; unfold escSpec; repeat' split
+  all_goals simp
+
+/-- white space that the printer writes literally: only that leaves the lexer's `ws_only` flag set
+    (an entity or character reference always clears it) -/
+def wsLit (attr : Bool) (b : UInt8) : Bool := isXmlWs b && (escSpec attr b == [b])
 
 /-- the end character must be one the printer escapes in the given mode -/
 def EndOk (attr : Bool) (endc : UInt8) : Prop := endc = 60 ∨ (endc = 34 ∧ attr = true)
@@ -64,7 +75,7 @@ theorem parseValue_dump (attr : Bool) (endc : UInt8) (hend : EndOk attr endc) (r
     (hrest : stripPrefix sCdata (endc :: rest) = none)
     {s : Bytes} (hs : YangText s) :
     ∀ (fuel : Nat) (ws : Bool), (dumpText attr s).length + 1 ≤ fuel →
-      parseValue endc fuel (dumpText attr s ++ endc :: rest) ws = .ok (s, ws && s.all isXmlWs, endc :: rest) := by
+      parseValue endc fuel (dumpText attr s ++ endc :: rest) ws = .ok (s, ws && s.all (wsLit attr), endc :: rest) := by
   have hend0 : endc ≠ 0 := by rcases hend with h | ⟨h, _⟩ <;> simp [h]
   have hend38 : endc ≠ 38 := by rcases hend with h | ⟨h, _⟩ <;> simp [h]
   induction hs with
@@ -83,29 +94,47 @@ theorem parseValue_dump (attr : Bool) (endc : UInt8) (hend : EndOk attr endc) (r
       by_cases h38 : b0 = 38
       · subst h38
         have := ih f false (by simp [escSpec] at hf; omega)
-        simp [escSpec, parseValue, entity, stripPrefix, sLt, sGt, sAmp, this, isXmlWs, Except.map]
+        simp [escSpec, parseValue, entity, stripPrefix, sLt, sGt, sAmp, this, isXmlWs, wsLit, Except.map]
       · by_cases h60 : b0 = 60
         · subst h60
           have := ih f false (by simp [escSpec] at hf; omega)
-          simp [escSpec, parseValue, entity, stripPrefix, sLt, this, isXmlWs, Except.map]
+          simp [escSpec, parseValue, entity, stripPrefix, sLt, this, isXmlWs, wsLit, Except.map]
         · by_cases h62 : b0 = 62
           · subst h62
             have := ih f false (by simp [escSpec] at hf; omega)
-            simp [escSpec, parseValue, entity, stripPrefix, sLt, sGt, this, isXmlWs, Except.map]
+            simp [escSpec, parseValue, entity, stripPrefix, sLt, sGt, this, isXmlWs, wsLit, Except.map]
           · by_cases h34 : b0 = 34 ∧ attr = true
             · obtain ⟨h34, ha⟩ := h34; subst h34; subst ha
               have := ih f false (by simp [escSpec] at hf; omega)
-              simp [escSpec, parseValue, entity, stripPrefix, sLt, sGt, sAmp, sApos, sQuot, this, isXmlWs, Except.map]
-            · have hesc : escSpec attr b0 = [b0] := by simp [escSpec, h38, h60, h62, h34]
-              rw [hesc] at hf ⊢
-              have hne : b0 ≠ endc := by
-                rcases hend with h | ⟨h, ha⟩
-                · subst h; exact h60
-                · subst h; intro hc; exact h34 ⟨hc, ha⟩
-              have hget := getUtf8_take hg (dumpText attr r ++ endc :: rest)
-              simp only [List.take_succ_cons, List.take_zero, List.singleton_append] at hget
-              have := ih f (ws && isXmlWs b0) (by simp at hf; omega)
-              simp [parseValue, hb0, h38, stripCdata_ne b0 _ h60, hne, hget, this, Bool.and_assoc, Except.map]
+              simp [escSpec, parseValue, entity, stripPrefix, sLt, sGt, sAmp, sApos, sQuot, this, isXmlWs, wsLit, Except.map]
+            · by_cases h13 : b0 = 13
+              · subst h13
+                have e : escSpec attr 13 = [38, 35, 120, 68, 59] := by cases attr <;> decide
+                rw [e] at hf ⊢
+                have := ih f false (by simp at hf; omega)
+                simp [parseValue, isDigit, isXDigit, rd, hexDigits, hexVal, putUtf8, this, isXmlWs, wsLit, Except.map, e]
+              · by_cases h9 : b0 = 9 ∧ attr = true
+                · obtain ⟨h9, ha⟩ := h9; subst h9; subst ha
+                  have e : escSpec true 9 = [38, 35, 120, 57, 59] := by decide
+                  rw [e] at hf ⊢
+                  have := ih f false (by simp at hf; omega)
+                  simp [parseValue, isDigit, isXDigit, rd, hexDigits, hexVal, putUtf8, this, isXmlWs, wsLit, Except.map, e]
+                · by_cases h10 : b0 = 10 ∧ attr = true
+                  · obtain ⟨h10, ha⟩ := h10; subst h10; subst ha
+                    have e : escSpec true 10 = [38, 35, 120, 65, 59] := by decide
+                    rw [e] at hf ⊢
+                    have := ih f false (by simp at hf; omega)
+                    simp [parseValue, isDigit, isXDigit, rd, hexDigits, hexVal, putUtf8, this, isXmlWs, wsLit, Except.map, e]
+                  · have hesc : escSpec attr b0 = [b0] := by simp [escSpec, h38, h60, h62, h34, h13, h9, h10]
+                    rw [hesc] at hf ⊢
+                    have hne : b0 ≠ endc := by
+                      rcases hend with h | ⟨h, ha⟩
+                      · subst h; exact h60
+                      · subst h; intro hc; exact h34 ⟨hc, ha⟩
+                    have hget := getUtf8_take hg (dumpText attr r ++ endc :: rest)
+                    simp only [List.take_succ_cons, List.take_zero, List.singleton_append] at hget
+                    have := ih f (ws && isXmlWs b0) (by simp at hf; omega)
+                    simp [parseValue, hb0, h38, stripCdata_ne b0 _ h60, hne, hget, this, Bool.and_assoc, Except.map, wsLit, hesc]
     · -- multi-byte character: copied verbatim by the printer, skipped as one character by the lexer
       have hb128 : 128 ≤ b0.toNat := hall b0 (by
         have : 0 < n := by omega
@@ -148,7 +177,7 @@ theorem parseValue_dump (attr : Bool) (endc : UInt8) (hend : EndOk attr endc) (r
       rw [hws, Bool.and_false] at this
       simp only [parseValue]
       simp only [hb0, h38, stripCdata_ne b0 _ h60, hne, hget, htake, hdrop, this, hws, Except.map, beq_iff_eq, if_false, Bool.and_false, Bool.false_and]
-      have hall' : (b0 :: r).all isXmlWs = false := by simp [hws]
+      have hall' : (b0 :: r).all (wsLit attr) = false := by simp [wsLit, hws]
       simp [hall', this, ← htk, List.take_append_drop]
 
 end LyModel.XmlText
